@@ -161,6 +161,24 @@ var colTypes = []colType{
 			}
 			return int64(*p)
 		}},
+	// two-byte elements: the values differ in their high bytes too
+	{"int16", reflect.TypeOf(int16(0)), true,
+		func(z int64) reflect.Value { return reflect.ValueOf(int16(z * 259)) },
+		func(v reflect.Value) int64 {
+			if v.Int()%259 != 0 {
+				return bad
+			}
+			return v.Int() / 259
+		}},
+	{"u8x2", reflect.TypeOf([2]uint8{}), false,
+		func(z int64) reflect.Value { return reflect.ValueOf([2]uint8{uint8(z), uint8(3 * z)}) },
+		func(v reflect.Value) int64 {
+			a := v.Interface().([2]uint8)
+			if a[1] != uint8(3*int64(a[0])) {
+				return bad
+			}
+			return int64(a[0])
+		}},
 	{"vint", reflect.TypeOf(vint(0)), true,
 		func(z int64) reflect.Value { return reflect.ValueOf(vint(z)) },
 		func(v reflect.Value) int64 { return v.Int() }},
@@ -204,12 +222,27 @@ type world struct {
 	sig   []*colType
 	pool  []view
 	roots []frame.Frame // one full-extent view per allocation
+	// allocations made of columns with unequal capacities (frame.Values) are dumped from the
+	// columns themselves, each over its own capacity
+	raw map[int][]reflect.Value
 }
 
 func (w *world) dumpHeap() string {
 	as := make([]string, len(w.roots))
 	for a, r := range w.roots {
 		cs := make([]string, len(w.sig))
+		if rc, ok := w.raw[a]; ok {
+			for c, ct := range w.sig {
+				full := rc[c].Slice(0, rc[c].Cap())
+				col := make([]int64, full.Len())
+				for i := range col {
+					col[i] = ct.toZ(full.Index(i))
+				}
+				cs[c] = vf.ZList(col)
+			}
+			as[a] = vf.List(cs)
+			continue
+		}
 		for c, ct := range w.sig {
 			col := make([]int64, r.Len())
 			for i := 0; i < r.Len(); i++ {
@@ -272,6 +305,27 @@ func (w *world) apply(o Op) (opTerm, outTerm string, ok bool) {
 		}
 		opTerm = vf.App("OSlices", vf.ZListList(o.Cols))
 		g := frame.Slices(cols...)
+		return opTerm, w.addResult(g, nil, 0), true
+	case "values":
+		if len(o.Cols) != len(w.sig) || len(o.Vals) != len(w.sig) {
+			return "", "", false
+		}
+		cols := make([]reflect.Value, len(w.sig))
+		extra := make([]int, len(w.sig))
+		for c, ct := range w.sig {
+			extra[c] = int(o.Vals[c])
+			s := reflect.MakeSlice(reflect.SliceOf(ct.typ), len(o.Cols[c]), len(o.Cols[c])+extra[c])
+			for i, z := range o.Cols[c] {
+				s.Index(i).Set(ct.mk(z))
+			}
+			cols[c] = s
+		}
+		opTerm = vf.App("OValues", vf.ZListList(o.Cols), vf.NatList(extra))
+		g := frame.Values(cols)
+		if w.raw == nil {
+			w.raw = map[int][]reflect.Value{}
+		}
+		w.raw[len(w.roots)] = cols
 		return opTerm, w.addResult(g, nil, 0), true
 	case "make":
 		types := make([]reflect.Type, len(w.sig))
@@ -435,6 +489,7 @@ func runCase(d Desc) (term string, kinds map[string]int, nsteps int) {
 var sigs = [][]string{
 	{"int"}, {"int", "string"}, {"string", "int"}, {"int8", "pair"}, {"bytes", "ints"},
 	{"int", "ptr", "string"}, {"vint", "int"}, {"string", "string", "int"}, {"int", "int8", "vint"},
+	{"int16"}, {"int16", "string"}, {"u8x2", "int"}, {"int8", "int16", "u8x2"},
 }
 
 func genCase(r *vf.Rand, nops int) Desc {
@@ -466,6 +521,14 @@ func genCase(r *vf.Rand, nops int) Desc {
 		return cols
 	}
 	// start with one or two backing allocations
+	if r.Chance(1, 4) {
+		// columns handed over with different spare capacities
+		ex := make([]int64, len(sig))
+		for c := range ex {
+			ex[c] = int64(r.Range(0, 5))
+		}
+		emit(Op{K: "values", Cols: mkCols(r.Range(2, 6)), Vals: ex})
+	}
 	emit(Op{K: "slices", Cols: mkCols(r.Range(3, 9))})
 	if r.Bool() {
 		emit(Op{K: "slices", Cols: mkCols(r.Range(1, 6))})
@@ -481,8 +544,21 @@ func genCase(r *vf.Rand, nops int) Desc {
 				i := r.Range(0, fc)
 				emit(Op{K: "slice", F: f, I: i, J: r.Range(i, fc)})
 			}
-		case k < 34:
+		case k < 30:
 			emit(Op{K: "copy", F: f, G: r.Intn(len(w.pool))})
+		case k < 34:
+			// a copy of exactly one row on both sides (the single-element fast path)
+			g := r.Intn(len(w.pool))
+			gl := w.pool[g].f.Len()
+			if fl > 0 && gl > 0 {
+				i, j := r.Intn(fl), r.Intn(gl)
+				n0 := len(w.pool)
+				emit(Op{K: "slice", F: f, I: i, J: i + 1})
+				emit(Op{K: "slice", F: g, I: j, J: j + 1})
+				if len(w.pool) == n0+2 {
+					emit(Op{K: "copy", F: n0, G: n0 + 1})
+				}
+			}
 		case k < 44:
 			dst := f
 			if r.Chance(1, 6) {
